@@ -27,7 +27,7 @@ def gen_cases(tier, seed):
         rank = [2, 3, 4][k % 3]
         cases.append({"kind": "bn", "rank": rank, "C": int(rng.integers(1, 4)), "momentum": [0.1, 0.5, 1.0, None, 0.0][int(rng.integers(5))],
                       "affine": bool(rng.integers(2)), "track": bool(rng.random() < 0.75), "dtype": ["float32", "float64"][k % 2],
-                      "eps": float(rng.choice([1e-5, 1e-3, 0.5])), "n_events": int(rng.integers(5, 31)), "seed": int(rng.integers(2 ** 31))})
+                      "eps": float(rng.choice([1e-5, 1e-3, 0.5, 1e-12])), "n_events": int(rng.integers(5, 31)), "seed": int(rng.integers(2 ** 31))})
     for k in range(6 if tier == "quick" else 60):
         cases.append({"kind": "nested-mode", "seed": int(rng.integers(2 ** 31)), "variant": k})
     for p in (0, 0.1, 0.3, 0.5, 0.9, 1, 0.002, 0.998):
@@ -104,6 +104,8 @@ def run_bn(ns, c):
             x = (rng.standard_normal(shp) * 2 + 1).astype(dt)
             if rng.random() < 0.2:
                 x = (rng.standard_normal(shp) * 1.0 + 300.0).astype(dt)      # a batch far from the origin (|mean|/std = 300)
+            elif rng.random() < 0.15:
+                x = (rng.standard_normal(shp) * 2e-5).astype(dt)             # a batch of tiny values (variance ~ 4e-10, far below the initial running variance 1)
             n_per = x.size // C
             use_batch = training or not c["track"]
             events.append(f"forward{list(shp)} training={training}")
@@ -273,9 +275,13 @@ def run_dropout(ns, c):
         cnt = np.zeros((4, 5))
         for _ in range(K):
             cnt += (m(small).data == 0)
-        sdk = math.sqrt(p * (1 - p) / K)
         counters["position_rate_checks"] = 20
-        if np.any(np.abs(cnt / K - p) > 6 * sdk):
+
+        def tail(k_):
+            """two-sided exact binomial tail probability of seeing a count as extreme as k_ out of K (the normal band is wrong for p near 0 or 1)"""
+            pm = [math.comb(K, j) * p ** j * (1 - p) ** (K - j) for j in range(K + 1)]
+            return min(1.0, 2 * min(sum(pm[:int(k_) + 1]), sum(pm[int(k_):])))
+        if any(tail(k_) < 1e-9 for k_ in cnt.ravel()):
             viol.append(V("dropout:per-position-rate", "some position is dropped with a frequency outside the 6-sigma band around p over repeated calls", p=p,
                           rates=(cnt / K).tolist()))
     # a drop-rate schedule: `p` is a public attribute (read at every call, as in PyTorch); after reassigning it the layer is a Dropout(p2)
